@@ -50,8 +50,10 @@ impl Trie {
         &'a self,
         input: &'a [char],
     ) -> impl Iterator<Item = TrieMatch> + 'a {
+        // U+0000 is crawdad's end marker: fed to the trie it would follow the end-of-key
+        // transition and report a key plus the NUL as a match. No key can contain it.
         self.da
-            .common_prefix_search(input.iter().cloned())
+            .common_prefix_search(input.iter().cloned().take_while(|&c| c != '\0'))
             .map(move |(value, end_char)| TrieMatch::new(value, end_char))
     }
 }
